@@ -1075,10 +1075,12 @@ impl<T: Serialize + for<'de> Deserialize<'de> + Clone + PartialEq + Send + Sync 
             }
             framed_end += 4 + entry_size as u64;
 
-            // Deserialize entry
-            let entry: WalEntry = match postcard::from_bytes(&buffer) {
-                Ok(e) => e,
-                Err(_) => {
+            // Deserialize entry. The record must fill its frame exactly: a damaged
+            // length prefix can happen to span several records, and decoding only the
+            // first of them would drop the rest without any trace.
+            let entry: WalEntry = match postcard::take_from_bytes::<WalEntry>(&buffer) {
+                Ok((e, rest)) if rest.is_empty() => e,
+                _ => {
                     stats.corruption_events.push(CorruptionEvent {
                         file_path: path.to_path_buf(),
                         corruption_type: CorruptionType::InvalidFormat,
